@@ -932,6 +932,29 @@ theorem parent_switch_resets_per_template_state :
 
 example : idIndexed.map (·.1) = ["loaded_filters", "loaded_tests"] := by decide
 
+/-- The whole render: block bodies, `super()` definitions, included / imported templates and
+    macro bodies are activations of their own (`call` / `ret`), each of which may switch to parents
+    of its own; callers are suspended with their caches and resume on their own stream.  With
+    the treatment the table reports for the id-indexed locals, every use in every activation
+    resolves the name its own current stream gives the id: nothing id-indexed survives a parent
+    switch, an include, an import, a block call or a `super()`. -/
+theorem every_activation_resolves_its_own_names :
+    ∀ row ∈ idIndexed, ∀ (s : Stream) (evs : List Ev2),
+      run2 (wipeOf row.2.2) s Cache.empty [] evs = runSpec2 s [] evs := by
+  intro row hrow s evs
+  have h : row.2.2 = "reset" := by
+    have : ∀ r ∈ idIndexed, r.2.2 = "reset" := by decide
+    exact this row hrow
+  exact run2_eq_spec _ (by intro c; simp [wipeOf, h]) evs s _ [] (coherent_empty s) (by simp)
+
+/-- a child that fills slot 1 only, calls a block (own numbering), switches to its parent, which
+    includes a template that extends another one: every use names its own stream's id -/
+example : run2 (wipeOf "reset") ["pprint", "lower"] Cache.empty []
+      [.use 1, .call ["title"], .use 0, .ret, .use 1, .switch ["upper", "trim"], .use 1,
+       .call ["first", "last"], .use 1, .switch ["min", "max"], .use 1, .use 0, .ret, .use 0]
+    = [some "lower", some "title", some "lower", some "trim", some "last", some "max", some "min", some "upper"] := by
+  decide
+
 /-- Why the reset has to be unconditional: a cache that is carried (a `conditional` row whose
     condition does not hold) answers with the child's name for the parent's id. -/
 theorem carried_cache_is_wrong :
